@@ -921,7 +921,7 @@ class WalletTransaction(Transaction):
             tx_input = sess.query(DbTransactionInput). \
                 filter_by(transaction_id=txidn, index_n=ti.index_n).scalar()
             if not tx_input:
-                witnesses = int_to_varbyteint(len(ti.witnesses)) + b''.join([bytes(varstr(w)) for w in ti.witnesses])
+                witnesses = ti.witness_data()
                 new_tx_item = DbTransactionInput(
                     transaction_id=txidn, output_n=ti.output_n_int, key_id=key_id, value=ti.value,
                     prev_txid=ti.prev_txid, index_n=ti.index_n, double_spend=ti.double_spend,
